@@ -11,8 +11,10 @@ DataKeysDef == [d \in XDets \cup XMotors \cup XMons |->
                  CASE d = "amotor" -> {"amotor", "amotor_setpoint"} [] d = "apdet" -> {"apdet"} [] d = "det" -> {"det"} [] d = "det2" -> {"det2"} [] d = "pdet" -> {"pdet"}
                    [] d = "motor" -> {"motor", "motor_setpoint"} [] d = "motor2" -> {"motor2", "motor2_setpoint"}
                    [] d = "mon1" -> {"mon1"}]
-StreamOrderDef == <<"baseline", "interruptions", "mon1", "primary">>
-DevOrderDef == <<"det", "det2", "mon1", "motor", "motor2", "pdet", "amotor", "apdet">>
+StreamOrderDef == <<"baseline", "fly1_stream", "fly2_stream", "interruptions", "mon1", "primary">>
+DevOrderDef == <<"det", "det2", "mon1", "motor", "motor2", "pdet", "amotor", "apdet", "fly1", "fly2">>
+FlyStreamDef == [f \in {"fly1", "fly2"} |-> f \o "_stream"]
+FlyNDef == [f \in {"fly1", "fly2"} |-> 2]
 XSus == {"s1", "s2"}
 SigOfDef == [x \in XSus |-> IF x = "s1" THEN "sig1" ELSE "sig2"]
 SusFutsDef == [x \in XSus |-> IF x = "s1" THEN <<"s1a", "s1b", "s1c", "s1d">> ELSE <<"s2a", "s2b", "s2c", "s2d">>]
